@@ -24,6 +24,7 @@ import (
 	"strconv"
 	"strings"
 
+	"github.com/google/mtail/internal/metrics"
 	"github.com/google/mtail/internal/runtime/compiler/ast"
 	"github.com/google/mtail/internal/runtime/compiler/checker"
 	"github.com/google/mtail/internal/runtime/compiler/parser"
@@ -47,6 +48,7 @@ const (
 
 type gen struct {
 	rng   *vlib.Rand
+	decls []string // declaration lines in order
 	exprs []string // expression statements and conditions in pre-order
 	feats map[string]bool
 	flags genFlags
@@ -276,7 +278,7 @@ func (g *gen) emit(b *strings.Builder, ind, s string) {
 
 // program generates one program; the flags choose which constructs with a
 // (formerly) lossy formatting may appear
-func genProgram(rng *vlib.Rand, fl genFlags) (string, []string, map[string]bool) {
+func genProgram(rng *vlib.Rand, fl genFlags) (string, []string, []string, map[string]bool) {
 	g := &gen{rng: rng, feats: map[string]bool{}, flags: fl}
 	var b strings.Builder
 	hid := func() string {
@@ -354,7 +356,13 @@ func genProgram(rng *vlib.Rand, fl genFlags) (string, []string, map[string]bool)
 		b.WriteString("/q / + P {\n  c++\n}\n")
 		g.exprs = append(g.exprs, "c++")
 	}
-	return b.String(), g.exprs, g.feats
+	for _, ln := range strings.Split(b.String(), "\n") {
+		f := strings.Fields(ln)
+		if len(f) > 1 && (f[0] == "hidden" || f[0] == "counter" || f[0] == "gauge" || f[0] == "text" || f[0] == "timer" || f[0] == "histogram") {
+			g.decls = append(g.decls, ln)
+		}
+	}
+	return b.String(), g.exprs, g.decls, g.feats
 }
 
 func (g *gen) stmtsDef(b *strings.Builder) {
@@ -650,6 +658,71 @@ func coqStmt(n ast.Node) (string, bool) {
 	return "(SExpr " + e + ")", true
 }
 
+func coqDecl(v *ast.VarDecl) string {
+	bs := make([]string, len(v.Buckets))
+	for i, f := range v.Buckets {
+		bs[i] = vlib.N(math.Float64bits(f))
+	}
+	return vlib.App("mk_decl", vlib.Bool(v.Hidden), vlib.N(uint64(v.Kind)), vlib.Bytes(v.Name), vlib.Tuple(v.Keys),
+		vlib.Z(v.Limit), vlib.List(bs), vlib.Bytes(v.ExportedName))
+}
+
+// declTokens lexes one declaration with the real lexer into UnparseDecl.dtk terms
+func declTokens(text string) (string, bool) {
+	l := parser.NewLexer("d", bytes.NewReader([]byte(text)))
+	var out []string
+	ctx := "" // last attribute keyword
+	for n := 0; n < 4*len(text)+8; n++ {
+		t := l.NextToken()
+		switch t.Kind {
+		case parser.EOF:
+			return vlib.List(out), true
+		case parser.NL:
+		case parser.HIDDEN:
+			out = append(out, "DHidden")
+		case parser.COUNTER, parser.GAUGE, parser.TIMER, parser.TEXT, parser.HISTOGRAM:
+			out = append(out, "DKind "+strconv.Itoa(int(declKind(t.Kind))))
+		case parser.BY:
+			out, ctx = append(out, "DBy"), "by"
+		case parser.AS:
+			out, ctx = append(out, "DAs"), "as"
+		case parser.LIMIT:
+			out, ctx = append(out, "DLimit"), "limit"
+		case parser.BUCKETS:
+			out, ctx = append(out, "DBuckets"), "buckets"
+		case parser.COMMA:
+			out = append(out, "DComma")
+		case parser.ID:
+			out = append(out, "DName "+vlib.Bytes(t.Spelling))
+		case parser.STRING:
+			if ctx == "as" {
+				out = append(out, "DStr "+vlib.Bytes(t.Spelling))
+			} else {
+				out = append(out, "DName "+vlib.Bytes(t.Spelling))
+			}
+		case parser.INTLITERAL:
+			i, err := strconv.ParseInt(t.Spelling, 10, 64)
+			if err != nil {
+				return "", false
+			}
+			if ctx == "limit" {
+				out = append(out, "DInt "+vlib.Z(i))
+			} else {
+				out = append(out, "DNum "+vlib.N(math.Float64bits(float64(i))))
+			}
+		case parser.FLOATLITERAL:
+			f, err := strconv.ParseFloat(t.Spelling, 64)
+			if err != nil {
+				return "", false
+			}
+			out = append(out, "DNum "+vlib.N(math.Float64bits(f)))
+		default:
+			return "", false
+		}
+	}
+	return "", false
+}
+
 func operandEnd(k parser.Kind) bool {
 	switch k {
 	case parser.ID, parser.INTLITERAL, parser.FLOATLITERAL, parser.STRING, parser.CAPREF,
@@ -763,6 +836,21 @@ func exprNodes(n ast.Node, acc *[]ast.Node) {
 	}
 }
 
+// declKind: the metrics.Kind value the parser gives a type keyword
+func declKind(k parser.Kind) metrics.Kind {
+	switch k {
+	case parser.COUNTER:
+		return metrics.Counter
+	case parser.GAUGE:
+		return metrics.Gauge
+	case parser.TIMER:
+		return metrics.Timer
+	case parser.TEXT:
+		return metrics.Text
+	}
+	return metrics.Histogram
+}
+
 type caseJ struct {
 	Program string `json:"program"`
 	Expr    string `json:"expr"`
@@ -860,7 +948,7 @@ func main() {
 		case 5:
 			fl = genFlags{smallDur: true, qkeys: true}
 		}
-		src, exprs, feats := genProgram(rng, fl)
+		src, exprs, decls, feats := genProgram(rng, fl)
 		o1, ok := checkProgram(out, src, "generated")
 		if !ok {
 			rejected++
@@ -881,6 +969,33 @@ func main() {
 		ast0, err := checker.Check(ast0, 0, 0)
 		if err != nil {
 			continue
+		}
+		if sl, ok := ast0.(*ast.StmtList); ok {
+			k := 0
+			for _, ch := range sl.Children {
+				vd, ok := ch.(*ast.VarDecl)
+				if !ok {
+					continue
+				}
+				u := parser.Unparser{}
+				ftxt := u.Unparse(&ast.StmtList{Children: []ast.Node{vd}})
+				ftoks, ok1 := declTokens(ftxt)
+				stoks, ok2 := ftoks, true
+				srcLine := ""
+				if k < len(decls) {
+					srcLine = decls[k]
+					stoks, ok2 = declTokens(srcLine)
+				}
+				k++
+				if !ok1 || !ok2 {
+					out.Count("decl/untokenisable")
+					continue
+				}
+				id := out.NextID()
+				out.Add(vlib.App("CDecl", vlib.N(id), coqDecl(vd), ftoks, stoks), caseJ{vlib.Q(srcLine), coqDecl(vd), vlib.Q(ftxt)},
+					vd.Hidden || vd.ExportedName != "" || len(vd.Buckets) > 0 || vd.Limit != 0)
+				out.Count("decl/in-model")
+			}
 		}
 		var nodes []ast.Node
 		exprNodes(ast0, &nodes)
